@@ -70,6 +70,16 @@ def Chain.entry (c : Chain) : Option (Nat × Nat) × List Event :=
   let v := verdict c.checks
   (v, c.pres.map (fun s => .pre s.id) ++ c.checks.map (fun s => .chk s.id) ++ c.stats.map (statNote v))
 
+/-- `SlotChain::entry` on a context whose stored result is `r0` when the check phase starts — left there by an earlier entry
+made on the same context, or written by a preparation slot. `reset_result_to_pass` discards it: the fold over the check
+slots starts from "not blocked" whatever `r0` is. -/
+def Chain.entryOn (c : Chain) (r0 : Option (Nat × Nat)) : Option (Nat × Nat) × List Event :=
+  let start : Option (Nat × Nat) := r0.bind (fun _ => none)          -- reset_result_to_pass
+  let v := c.checks.foldl (fun acc c => match c.res with
+    | .blocked ty => some (ty, c.id)
+    | _ => acc) start
+  (v, c.pres.map (fun s => .pre s.id) ++ c.checks.map (fun s => .chk s.id) ++ c.stats.map (statNote v))
+
 /-- `SentinelEntry::exit` → `SlotChain::exit` (no exit handlers are registered by these slots) -/
 def Chain.exit (c : Chain) (blocked : Bool) : List Event :=
   if blocked then [] else c.stats.map (fun s => .done s.id)
